@@ -51,8 +51,11 @@ def deq(det, v):
   return (v.astype(np.int64) - zp).astype(np.float64) * sc
 
 
+REFERENCE_KERNELS = [False]
+
+
 def own_tensors(content, key, x):
-  it = interp.make(content)
+  it = interp.make(content, reference=REFERENCE_KERNELS[0])
   it.allocate_tensors()
   r = it.get_signature_runner(key)
   feed = {}
@@ -194,10 +197,13 @@ def run_case(ctx, case, rng):
     return {'outcome': 'skipped', 'reason': 'generator_reject'}
   src = models.read(spec.content)
   metric = 'mse' if rng.random() < 0.5 else 'median_diff_ratio'
+  REFERENCE_KERNELS[0] = bool(rng.random() < 0.2)   # validate(use_reference_kernel=True): the check's own interpreters follow
+  ctx.count('reference_kernel_cases' if REFERENCE_KERNELS[0] else 'optimized_kernel_cases')
   base = {'ops': common.describe_model(spec.content, src), 'metric': metric, 'n_samples': n}
   # --- model vs itself
   if case % 4 == 0:
-    res = model_validator.compare_model(spec.content, spec.content, datasets, metric, validation_utils.get_validation_func(metric))
+    res = model_validator.compare_model(spec.content, spec.content, datasets, metric, validation_utils.get_validation_func(metric),
+                                        use_reference_kernel=REFERENCE_KERNELS[0])
     for s in spec.signatures:
       check_result(ctx, res.get_signature_comparison_result(s['key']), src, spec.content, spec.content, s, datasets[s['key']],
                    metric, dict(base, pair='self'), expect_zero=True)
@@ -227,7 +233,7 @@ def run_case(ctx, case, rng):
       ctx.count('target_not_runnable_left_to_C01')
       return
     try:
-      res = run.qt.validate(test, metric)
+      res = run.qt.validate(test, metric, use_reference_kernel=REFERENCE_KERNELS[0])
     except Exception as e:  # pylint: disable=broad-except
       ctx.violation('validate_raised', {'exc': common.exc_signature(e)[:80], 'metric': metric}, d)
       return
